@@ -243,12 +243,14 @@ static int Replay(const char * inFile, bool prefer, const char * outFile)
       if (strandedNow) { for (size_t k=0; k<ths.size(); k++) ths[k].detach(); }     // parked for ever: leak them (and the mutex)
       else { for (size_t k=0; k<ths.size(); k++) ths[k].join(); delete m; for (size_t k=0; k<ps.size(); k++) delete ps[k]; }
       vs::Deactivate();
+      if ((stranded >= 200)||(violated >= 500)||(vs::S.hung)) break;     // enough evidence; parked threads are leaked
    }
    mj::Value sum = mj::Value::Obj();
    sum.set("summary", mj::Value::Bool(true)).set("behaviours", mj::Value::Int(nb)).set("followed", mj::Value::Int(followed)).set("drifted", mj::Value::Int(drifted)).set("violated", mj::Value::Int(violated))
       .set("known", mj::Value::Int(knownHits)).set("stranded", mj::Value::Int(stranded)).set("steps", mj::Value::Int(steps)).set("events", mj::Value::Int(nevents)).set("yields", mj::Value::Int((int64_t) ysteps));
    fprintf(out, "%s\n", mj::ToString(sum).c_str()); fclose(out); fclose(in);
-   printf("%s\n", mj::ToString(sum).c_str());
+   printf("%s\n", mj::ToString(sum).c_str()); fflush(stdout);
+   if ((stranded > 0)||(vs::S.hung)) _exit(0);
    return 0;
 }
 
@@ -294,13 +296,15 @@ static int Explore(uint32 iters, int nt, int nops, uint32 seed0, int preferSel, 
          if (!ok) { for (size_t k=0; k<ths.size(); k++) ths[k].detach(); }
          else { for (size_t k=0; k<ths.size(); k++) ths[k].join(); delete m; for (size_t k=0; k<ps.size(); k++) delete ps[k]; }
          vs::Deactivate();
+         if ((stranded >= 50)||(violated >= 200)||(vs::S.hung)) {it = iters; break;}
       }
    }
    mj::Value sum = mj::Value::Obj();
    sum.set("summary", mj::Value::Bool(true)).set("executions", mj::Value::Int(execs)).set("distinct_programs", mj::Value::Int((int64_t) distinctPrograms.size())).set("violated", mj::Value::Int(violated)).set("stranded", mj::Value::Int(stranded))
       .set("known", mj::Value::Int(knownHits)).set("events", mj::Value::Int(nevents)).set("yields", mj::Value::Int((int64_t) ysteps)).set("traces_written", mj::Value::Int(tracesWritten));
    fprintf(out, "%s\n", mj::ToString(sum).c_str()); fclose(out); if (tf) fclose(tf);
-   printf("%s\n", mj::ToString(sum).c_str());
+   printf("%s\n", mj::ToString(sum).c_str()); fflush(stdout);
+   if ((stranded > 0)||(vs::S.hung)) _exit(0);
    return 0;
 }
 
